@@ -29,6 +29,6 @@ def create_spin_range(
             projection = Decimal("0.0")
         spin_projections.append(float(projection))
         projection += 1
-    if no_zero_spin and len(spin_projections) > 1:
+    if no_zero_spin and len(spin_projections) > 1 and 0.0 in spin_projections:
         spin_projections.remove(0.0)
     return spin_projections
